@@ -10,4 +10,8 @@ from .c07 import rule_formulas
 # highest commit certificate verbatim (seed S7C02: the vote withheld once a timeout certificate of its view exists)
 from .c05 import rule_timeout_content
 
-RULES = [("C03.6", rule_recorded_vote), ("C07.1", rule_formulas), ("C05.11", rule_timeout_content)]
+# ... and the recorded high vote must SURVIVE a restart: the durable write really happens for every backup (C03.2) and the restart
+# restores what was stored (C03.12) - seed S10C02: EngineManager::set_state drops the write for a view it has already written
+from .c03 import rule_backup_reaches_engine, rule_restore_passthrough
+
+RULES = [("C03.6", rule_recorded_vote), ("C07.1", rule_formulas), ("C05.11", rule_timeout_content), ("C03.2", rule_backup_reaches_engine), ("C03.12", rule_restore_passthrough)]
